@@ -1,3 +1,36 @@
 import Driver.NodeSim
+open ElaVerif.Node ElaVerif.Index Driver BlockSpec
 
-def main : IO Unit := Driver.run NodeSim.step NodeSim.blank
+/-!
+  C06 driver: the node protocol (NodeSim) plus the CRCAppropriation context check
+    appr <0|1> <amount>     the committee's "appropriation needed" flag and amount
+    ctx <height> <tx>       BlockChain.CheckTransactionContext of a CRCAppropriation (kind `ca`) at a height from
+                            CRCommitteeStartHeight (regnet 442000) on → "ok" | "err <code>"
+  The CR assets address of the harness node is account 4.
+-/
+structure S06 where
+  node : NState
+  appr : Option Int
+
+def crAssetsAddr : Nat := 4
+def crStart : Nat := 442000
+
+def step06 (s : S06) : List String → S06 × String
+  | ["appr", n, a] => match nat? n, int? a with
+      | some n, some a => ({ s with appr := if n = 0 then none else some a }, "ok")
+      | _, _ => (s, "bad-op")
+  | "ctx" :: h :: ts => match nat? h, pTx ts with
+      | some h, some (tx, []) =>
+        if h < crStart || !isApprop tx then (s, "bad-op")
+        else
+          let c := ctxApprop s.node.ledger crAssetsAddr s.appr tx
+          (s, if c = 0 then "ok" else s!"err {c}")
+      | _, _ => (s, "bad-op")
+  | ["reset"] =>
+    let (n, out) := NodeSim.step s.node ["reset"]
+    ({ node := n, appr := none }, out)
+  | toks =>
+    let (n, out) := NodeSim.step s.node toks
+    ({ s with node := n }, out)
+
+def main : IO Unit := Driver.run step06 { node := NodeSim.blank, appr := none }
